@@ -177,8 +177,8 @@ type Call struct {
 	pendingRepick      bool
 	released, abandon  bool
 	repickW            kern.Waiter
-	RepickOf           int // the call this pick repeats (-1: a first pick)
-	Chained            bool    // the caller's context derives from an earlier intercepted call's context
+	RepickOf           int  // the call this pick repeats (-1: a first pick)
+	Chained            bool // the caller's context derives from an earlier intercepted call's context
 	peekBad            string
 }
 
@@ -210,10 +210,11 @@ func (c *Call) CtxEnded(at time.Duration) bool {
 }
 
 type methodEntry struct {
-	names   []string
-	cmd     int
-	locator string
-	hasAff  bool
+	unknownCmd bool // the entry's command is a number the enum does not define: what it maps to is unspecified
+	names      []string
+	cmd        int
+	locator    string
+	hasAff     bool
 }
 
 // Sim is one simulated run of the pool.
@@ -273,7 +274,7 @@ func (s *Sim) methodEntries() []methodEntry {
 		{names: []string{methodNames[MNoAff]}, hasAff: false},
 	}
 	for _, x := range s.plan.Cfg.Extra {
-		e := methodEntry{cmd: []int{cmdBound, cmdBind, cmdUnbind}[x.Cmd%3], locator: loc, hasAff: x.HasAff}
+		e := methodEntry{cmd: []int{cmdBound, cmdBind, cmdUnbind}[x.Cmd%3], locator: loc, hasAff: x.HasAff, unknownCmd: x.Cmd == 3 && x.HasAff}
 		for _, n := range x.Names {
 			e.names = append(e.names, methodNames[MExtra0+n%3])
 		}
@@ -304,6 +305,9 @@ func (s *Sim) buildAPIConfig() *pb.ApiConfig {
 				cmd = pb.AffinityConfig_BIND
 			case cmdUnbind:
 				cmd = pb.AffinityConfig_UNBIND
+			}
+			if e.unknownCmd {
+				cmd = pb.AffinityConfig_Command(7)
 			}
 			mc.Affinity = &pb.AffinityConfig{Command: cmd, AffinityKey: e.locator}
 		}
@@ -476,6 +480,9 @@ func (s *Sim) run() {
 	k.LogOn = s.Opts.Log
 	k.OpYields = 4000
 	k.MaxSteps = 300000
+	if s.plan.Cfg.Max > 100 && s.plan.Cfg.Max < 1000 {
+		k.MaxSteps = 4000000 // every pick reads the stream count of every channel (a yield point each)
+	}
 	s.k = k
 	s.env = NewEnv(k)
 	s.cc = &FakeCC{env: s.env}
@@ -721,6 +728,14 @@ func (s *Sim) checkDeadlock() {
 			fn += o.Name + "(" + o.State().String() + " @" + o.Site + ") "
 		}
 		s.vio("C06", "deadlock", "", fmt.Sprintf("%s is blocked on a lock and nothing is runnable: held by %s", t.Name, fn))
+		// a round-robin BIND pick caught in it never gets its channel, nor returns
+		// when its context ends (C09)
+		for _, c := range s.calls {
+			if cm := s.model.calls[c.ID]; cm != nil && cm.rr && c.Invoked && !c.Returned && c.task != nil && c.task.State() != kern.Done && c.task.State() != kern.BlockedSelect {
+				s.vio("C09", "rr-bind-never-returns", "deadlock", fmt.Sprintf("round-robin BIND call %d is part of a deadlock (%v at %s): %s is blocked on a lock held by %s", c.ID, c.task.State(), c.task.Site, t.Name, fn))
+				break
+			}
+		}
 		s.stop = true
 		return
 	}
